@@ -205,7 +205,9 @@ def loop_discipline(ctx):
                 and gs[0][0].test.left.id in err_names and "screening_tolerance" in norm(gs[0][0].test.comparators[0]):
             kinds["converged"] += 1
         elif isinstance(e, ast.Raise) and len(gs) == 1 and gs[0][1] == "true" and "max_iterations_per_step" in txt[0] \
-                and isinstance(getattr(lp, 'target', None), ast.Name) and lp.target.id in txt[0] and ">" in txt[0]:
+                and isinstance(getattr(lp, 'target', None), ast.Name) and isinstance(gs[0][0].test, ast.Compare) \
+                and isinstance(gs[0][0].test.ops[0], ast.Lt) and norm(gs[0][0].test.comparators[0]) == lp.target.id \
+                and "max_iterations_per_step" in norm(gs[0][0].test.left):      # canonical: `it > max` reads `max < it`
             kinds["bound"] += 1
         elif isinstance(e, ast.Break) and len(gs) == 1 and gs[0][1] == "false" and norm(gs[0][0].test).endswith("include_screening"):
             kinds["off"] += 1
